@@ -62,7 +62,7 @@ def run(pid, tier):
             else:
                 key = "spline/solve/%s/%s/k=%d" % (e["layout"], e["kind"], e["k"])
                 small = {"key": e["key"], "k": e["k"], "layout": e["layout"], "kind": e["kind"], "left_n": e["left_n"], "right_n": e["right_n"], "outcome": e["o"]}
-            V.add(key, "event rejected by BSpline.tla: %s" % json.dumps(small), {"engine": "spline", "event": e})
+            V.add(key, "event rejected by BSpline.tla: %s" % json.dumps(small), {"engine": "spline", "event": e}, src=p)
     bind = {"skipped": "violations were found"}
     if traces and not V.viol:
         E = vlib.read_ndjson(traces[0])
